@@ -46,7 +46,8 @@ func runC05(c *Ctx) {
 		c.R.Fail("R-C05-4", "corerad.maxInitialAdvInterval", "", "", "constant missing", "", "anchor-missing")
 	}
 
-	ps := c.pathsO("R-C05-3", md, an.PathOpts{})
+	// loop-free helpers factored out of multicastDelay are enumerated in line
+	ps := c.pathsO("R-C05-3", md, an.PathOpts{InlinePaths: func(f *ssa.Function) bool { return f.Pkg == md.Pkg && inlineLoopFree(f) }})
 	pmin, pmax := "$"+md.Params[2].Name(), "$"+md.Params[3].Name()
 	pi := "$" + md.Params[1].Name()
 	for _, p := range ps {
